@@ -28,7 +28,7 @@ LEVEL_NOTE = ('trusted: CPython ast.parse/tokenize; the embedding table (fragmen
 RULE = ('enum: case = (program, node path, mode, decoration) or (fragment, mode, token edit); non-trivial = distinct accepted '
         'fragments compared with the reference + distinct invalid texts rejected; states = distinct fragment texts')
 ASSUMPTIONS = ['one interpreter (3.12)']
-BOUNDS = {'quick': '119 programs; all positioned nodes + comprehension/withitem/match_case/arguments/operators; 5 decorations; '
+BOUNDS = {'quick': '135 programs + 468 multi-line undelimited tuple / sequence-pattern fragments x 4 modes; position accessors of every node; all positioned nodes + comprehension/withitem/match_case/arguments/operators; 5 decorations; '
                    'token-edit neighbourhood (delete, duplicate, replace by and insert each of 12 tokens) on single-line fragments of <= 16 tokens',
           'thorough': 'all programs, neighbourhood on fragments <= 30 tokens, + corpus files whole-program check'}
 
